@@ -220,9 +220,10 @@ def stepE2E (e : E2E) (w : List String) (impl : String) : Option (E2E × StepOut
           (pre, !mustAll || got == want, want)
         let (pa, ca, wa) := judge 0
         let (pb, cb, wb) := judge 1
+        let exactNow := e.settled && e.pstate t == 0 && (e.px 0 t).exact && (e.px 1 t).exact
         let bad := (if pa && pb then [] else ["order"]) ++ (if ca && cb then [] else ["complete"])
         (e, { model := if bad.isEmpty then impl else s!"a=[{showItems wa}] b=[{showItems wb}]",
-              oracle := bad, nontrivial := es.length > 2,
+              oracle := bad, nontrivial := es.length > 2 && exactNow,
               key := some s!"recv {impl}" })
   | ["result", id] =>
     id.toNat?.map fun id =>
@@ -255,7 +256,7 @@ def stepE2E (e : E2E) (w : List String) (impl : String) : Option (E2E × StepOut
         let missing := match expect with
           | some x => if x != impl && x.startsWith "ok:" then ["reply-complete"] else []
           | none => []
-        (e, { model := model, oracle := wired ++ missing, nontrivial := impl.startsWith "ok:",
+        (e, { model := model, oracle := wired ++ missing, nontrivial := impl.startsWith "ok:" && expect.isSome,
               key := some s!"result {c.dir} {c.t} {c.hold} {impl}" })
   | ["join", t, g] =>
     t.toNat?.map fun t =>
